@@ -277,6 +277,14 @@ def rule_own(ctx, rule_id="C06.OWN", prop="C06") -> RuleResult:
                 if isinstance(it, ast.Name):
                     r = p.resolve_name(fn.module, it.id)
                     it = r[1][1] if r and r[0] == "assign" else it
+                elif isinstance(it, ast.Attribute) and isinstance(it.value, ast.Name):
+                    # a table bound at class level: self.NAMES / cls.NAMES / Class.NAMES
+                    owner = fn.cls if it.value.id in ("self", "cls", fn.self_name or "") else None
+                    if owner is None:
+                        r = p.resolve_name(fn.module, it.value.id)
+                        owner = r[1] if r and r[0] == "class" else None
+                    m = owner.lookup(it.attr) if owner is not None else None
+                    it = m[2] if m and m[1] == "assign" and m[2] is not None else it
                 hit = sorted({e.value for e in ast.walk(it) if isinstance(e, ast.Constant) and e.value in REGISTRIES}) if isinstance(it, (ast.Tuple, ast.List, ast.Set, ast.Dict)) else []
                 sets = [c for b in n.body for c in ast.walk(b) if isinstance(c, ast.Call) and isinstance(c.func, ast.Name) and c.func.id == "setattr" and len(c.args) == 3
                         and isinstance(c.args[0], ast.Name) and c.args[0].id == fn.self_name and isinstance(c.args[1], ast.Name) and c.args[1].id == n.target.id]
